@@ -231,6 +231,8 @@ class World:
                 owner = None
         for i, (name, p) in enumerate(sig.parameters.items()):
             if p.kind in (p.VAR_POSITIONAL, p.VAR_KEYWORD):
+                if contract is not None and name in contract.types_d and p.kind == p.VAR_POSITIONAL:
+                    out[name] = self.parse_type(contract.types_d[name])      # verified for this arity
                 continue
             if contract is not None and name in contract.types_d:
                 out[name] = self.parse_type(contract.types_d[name])
